@@ -496,7 +496,7 @@ func (c *suComp) Run(args []string) string {
 			return "no-such-subscriber"
 		}
 		s.drain()
-		return s.status() + " mon=" + c.viewCheck(s)
+		return s.status() + " mon=" + c.viewCheck(s, false)
 	case "sub", "subw":
 		id := decStr(args[1])
 		ran := false
@@ -626,7 +626,10 @@ func (c *suComp) Run(args []string) string {
 		quiesce()
 		return "ok"
 	case "view":
-		return c.viewCheck(s)
+		return c.viewCheck(s, false)
+	case "view!":
+		// the monitor without the exemption for finding D25 (see viewCheck); used by its witness case
+		return c.viewCheck(s, true)
 	}
 	return "bad-op"
 }
@@ -674,7 +677,15 @@ func compatibleGo(q, p []string) bool {
 //   (2) every entry equals the cache's current value for that leaf (nothing stale, nothing the
 //       cache no longer has), and concerns an allowed target and a path compatible with one of
 //       its registrations (C06: streamed = compatible, a superset of what a query returns).
-func (c *suComp) viewCheck(s *suSub) string {
+//
+// Known finding D25 (KNOWN_FINDINGS.txt, corpus/C04/d25_subscription_below_atomic_prefix.ops): an atomic
+// notification is stored as ONE leaf at its prefix but offered by the paths of the updates it carries.  A
+// subscriber all of whose compatible registrations are strictly longer than that prefix (it asked for
+// something inside the container) is offered one version of the container and not a later one that
+// carries no update under its path: it keeps the old version.  Unless `strict`, a stale entry of exactly
+// this kind (atomic container on either side, no compatible registration that is at most as long as
+// the key) is not reported; an entry the cache no longer has at all still is.
+func (c *suComp) viewCheck(s *suSub, strict bool) string {
 	if s.mode != "s" || s.uo || s.isDone() {
 		return "ok"
 	}
@@ -685,6 +696,7 @@ func (c *suComp) viewCheck(s *suSub) string {
 	}
 	cur := map[string]string{}    // every allowed leaf: index -> value
 	compat := map[string]bool{}   // ... compatible with a registration
+	short := map[string]bool{}    // ... compatible with a registration that is no longer than the key
 	matched := map[string]bool{}  // ... returned by a query for a registration path
 	c.ca.c.Query("*", nil, func(p []string, l *ctree.Leaf, v interface{}) error {
 		n, ok := v.(*pb.Notification)
@@ -716,6 +728,9 @@ func (c *suComp) viewCheck(s *suSub) string {
 			if qmatchesGo(q, idx) {
 				matched[k] = true
 			}
+			if len(q) <= len(idx) && compatibleGo(q, idx) {
+				short[k] = true
+			}
 		}
 		return nil
 	})
@@ -727,6 +742,9 @@ func (c *suComp) viewCheck(s *suSub) string {
 	}
 	for k, v := range s.view {
 		if cv, ok := cur[k]; !ok || cv != v {
+			if ok && !strict && !short[k] && (viewIsAtomic(v) || viewIsAtomic(cv)) {
+				continue // D25
+			}
 			diff = append(diff, "phantom-or-stale:"+k)
 		} else if !compat[k] {
 			diff = append(diff, "not-subscribed:"+k)
@@ -740,6 +758,12 @@ func (c *suComp) viewCheck(s *suSub) string {
 		diff = diff[:3]
 	}
 	return "view-differs:" + strings.Join(diff, ",")
+}
+
+// viewIsAtomic: is this monitor value (viewVal) that of an atomic container ("@<ts>=A<n>#<fingerprint>")?
+func viewIsAtomic(v string) bool {
+	i := strings.Index(v, "=A")
+	return strings.HasPrefix(v, "@") && i > 0 && !strings.ContainsAny(v[1:i], "=#")
 }
 
 // ---------------------------------------------------------------- generating
